@@ -302,16 +302,21 @@ class VariableElimination(Inference):
 
         # Step 2: If virtual_evidence is provided, modify the network.
         if isinstance(self.model, BayesianNetwork) and (virtual_evidence is not None):
+            orig_model = self.model
             self._virtual_evidence(virtual_evidence)
             virt_evidence = {"__" + cpd.variables[0]: 0 for cpd in virtual_evidence}
-            return self.query(
-                variables=variables,
-                evidence={**evidence, **virt_evidence},
-                virtual_evidence=None,
-                elimination_order=elimination_order,
-                joint=joint,
-                show_progress=show_progress,
-            )
+            try:
+                return self.query(
+                    variables=variables,
+                    evidence={**evidence, **virt_evidence},
+                    virtual_evidence=None,
+                    elimination_order=elimination_order,
+                    joint=joint,
+                    show_progress=show_progress,
+                )
+            finally:
+                # Rebind the engine to the original model (without the virtual evidence nodes).
+                self.__init__(orig_model)
 
         # Step 3: Prune the network based on variables and evidence.
         if isinstance(self.model, BayesianNetwork):
@@ -552,15 +557,20 @@ class VariableElimination(Inference):
             )
 
         if isinstance(self.model, BayesianNetwork) and (virtual_evidence is not None):
+            orig_model = self.model
             self._virtual_evidence(virtual_evidence)
             virt_evidence = {"__" + cpd.variables[0]: 0 for cpd in virtual_evidence}
-            return self.map_query(
-                variables=variables,
-                evidence={**evidence, **virt_evidence},
-                virtual_evidence=None,
-                elimination_order=elimination_order,
-                show_progress=show_progress,
-            )
+            try:
+                return self.map_query(
+                    variables=variables,
+                    evidence={**evidence, **virt_evidence},
+                    virtual_evidence=None,
+                    elimination_order=elimination_order,
+                    show_progress=show_progress,
+                )
+            finally:
+                # Rebind the engine to the original model (without the virtual evidence nodes).
+                self.__init__(orig_model)
 
         if isinstance(self.model, BayesianNetwork):
             model_reduced, evidence = self._prune_bayesian_model(variables, evidence)
@@ -1107,28 +1117,35 @@ class BeliefPropagation(Inference):
         if isinstance(self.model, BayesianNetwork) and (virtual_evidence is not None):
             self._virtual_evidence(virtual_evidence)
             virt_evidence = {"__" + cpd.variables[0]: 0 for cpd in virtual_evidence}
-            return self.query(
+            try:
+                return self.query(
+                    variables=variables,
+                    evidence={**evidence, **virt_evidence},
+                    virtual_evidence=None,
+                    joint=joint,
+                    show_progress=show_progress,
+                )
+            finally:
+                # Rebind the engine to the original model (without the virtual evidence nodes).
+                self.__init__(orig_model)
+
+        try:
+            # Step 3: Do network pruning.
+            if isinstance(self.model, BayesianNetwork):
+                self.model, evidence = self._prune_bayesian_model(variables, evidence)
+            self._initialize_structures()
+
+            # Step 4: Run inference.
+            result = self._query(
                 variables=variables,
-                evidence={**evidence, **virt_evidence},
-                virtual_evidence=None,
+                operation="marginalize",
+                evidence=evidence,
                 joint=joint,
                 show_progress=show_progress,
             )
-
-        # Step 3: Do network pruning.
-        if isinstance(self.model, BayesianNetwork):
-            self.model, evidence = self._prune_bayesian_model(variables, evidence)
-        self._initialize_structures()
-
-        # Step 4: Run inference.
-        result = self._query(
-            variables=variables,
-            operation="marginalize",
-            evidence=evidence,
-            joint=joint,
-            show_progress=show_progress,
-        )
-        self.__init__(orig_model)
+        finally:
+            # Rebind the engine to the original model even if the query fails.
+            self.__init__(orig_model)
 
         if joint:
             return result.normalize(inplace=False)
@@ -1206,26 +1223,32 @@ class BeliefPropagation(Inference):
         if isinstance(self.model, BayesianNetwork) and (virtual_evidence is not None):
             self._virtual_evidence(virtual_evidence)
             virt_evidence = {"__" + cpd.variables[0]: 0 for cpd in virtual_evidence}
-            return self.map_query(
+            try:
+                return self.map_query(
+                    variables=variables,
+                    evidence={**evidence, **virt_evidence},
+                    virtual_evidence=None,
+                    show_progress=show_progress,
+                )
+            finally:
+                # Rebind the engine to the original model (without the virtual evidence nodes).
+                self.__init__(orig_model)
+
+        try:
+            if isinstance(self.model, BayesianNetwork):
+                self.model, evidence = self._prune_bayesian_model(variables, evidence)
+            self._initialize_structures()
+
+            final_distribution = self._query(
                 variables=variables,
-                evidence={**evidence, **virt_evidence},
-                virtual_evidence=None,
+                operation="marginalize",
+                evidence=evidence,
+                joint=True,
                 show_progress=show_progress,
             )
-
-        if isinstance(self.model, BayesianNetwork):
-            self.model, evidence = self._prune_bayesian_model(variables, evidence)
-        self._initialize_structures()
-
-        final_distribution = self._query(
-            variables=variables,
-            operation="marginalize",
-            evidence=evidence,
-            joint=True,
-            show_progress=show_progress,
-        )
-
-        self.__init__(orig_model)
+        finally:
+            # Rebind the engine to the original model even if the query fails.
+            self.__init__(orig_model)
 
         # To handle the case when no argument is passed then
         # _variable_elimination returns a dict.
